@@ -107,6 +107,7 @@ type Collector struct {
 	dir    string
 	header string
 	footer string
+	sigCount map[string]int
 }
 
 func NewCollector(prop string, seed int64) *Collector {
@@ -151,7 +152,12 @@ func (c *Collector) Violate(v Violation) {
 	c.mu.Lock()
 	defer c.mu.Unlock()
 	v.Property = c.rep.Property
-	if len(c.rep.Violations) < 50 {
+	// keep a few per signature so that one frequent violation cannot hide a different one
+	if c.sigCount == nil {
+		c.sigCount = map[string]int{}
+	}
+	c.sigCount[v.Signature]++
+	if c.sigCount[v.Signature] <= 3 && len(c.rep.Violations) < 120 {
 		c.rep.Violations = append(c.rep.Violations, v)
 	}
 }
